@@ -73,6 +73,10 @@ def wild_spec(draw):
                     acts.insert(pos, dict(op=draw(st.sampled_from(['glyph', 'copy'])), insert=True, cls=draw(st.integers(0, n - 2)), ref=draw(st.integers(-pre, blen - 1)),
                                           assoc=draw(st.lists(st.integers(-pre, blen - 1), min_size=0, max_size=2)) or None, attrs=[]))
     spec['dir'] = draw(st.integers(0, 1))
+    if draw(st.integers(0, 3)) == 0:
+        # line-end contextuals: gr_seg_justify brackets the line with two marker slots of glyph lbGID (C08 histories, C19)
+        spec['silf_flags'] = spec.get('silf_flags', 0) | 1
+        spec['lbgid'] = draw(st.integers(0, n - 1))
     return spec
 
 
